@@ -41,12 +41,11 @@ VARIANTS = {
   fault('xwiki-empty-quote', F(XW, 'XWiki20Renderer.render_quote', 'token.children[-1] if token.children else None', 'token.children[-1]'), 'R-RENDER-TOTAL'),
   fault('jira-empty-quote', F(JR, 'JiraRenderer.render_quote', 'token.children[-1] if token.children else None', 'token.children[-1]'), 'R-RENDER-TOTAL'),
   fault('html-empty-list-item', F(HR, 'HtmlRenderer.render_list_item', "        if len(token.children) == 0:\n            return '<li></li>'\n", ''), 'R-RENDER-TOTAL'),
-  fault('table-read-length-guard', F(BT, 'Table.read', 'if len(line_buffer) < 2 or not', 'if not'), ('R-IDX', 'Table.read')),
-  fault('link-dest-end-guard', F(CT, 'match_link_dest', "    if offset == len(string):\n        return None\n", ''), ('R-IDX', 'match_link_dest')),
+  fault('table-read-length-guard', F(BT, 'Table.read', 'if len(line_buffer) < 2 or not', 'if not'), 'R-CTOR-TOTAL'),
   fault('list-pattern-wider-than-item', S(BT, r"pattern = re.compile(r' {0,3}(?:\d{1,9}[.)]|[+\-*])(?:[ \t]*$|[ \t]+)')",
                                           r"pattern = re.compile(r' {0,3}(?:\d{0,9}[.)]|[+\-*])(?:[ \t]*$|[ \t]+)')"), 'R-SIBLING-RX'),
   fault('new-raise-in-reader', F(BT, 'Heading.read', '        next(lines)\n', "        next(lines)\n        if cls.level > 6:\n            raise ValueError('bad level')\n"), 'R-RAISE'),
-  fault('quote-loop-no-consume', F(BT, 'Quote.read', "            next(lines)\n            next_line = lines.peek()\n", "            next_line = lines.peek()\n"), 'R-LOOP'),
+  fault('quote-loop-no-consume', F(BT, 'Quote.read', "            next(lines)\n            next_line = lines.peek()\n", "            next_line = lines.peek()\n"), 'R-CTOR-TOTAL'),
   fault('scanner-loop-no-increment', F(CT, 'find_core_tokens', "        else:\n            escaped = False\n        i += 1\n", "        else:\n            escaped = False\n"), 'R-LOOP'),
   fault('heading-attr-not-assigned', F(BT, 'Heading.__init__', 'self.level, content, self.closing_sequence = match', 'self.level, content, _ = match'), 'R-RENDER-TOTAL'),
   fault('image-title-conditional', F(ST, 'Image.__init__', '        self.title = EscapeSequence.strip(match.group(3))\n', "        if match.group(3):\n            self.title = EscapeSequence.strip(match.group(3))\n"), 'R-RENDER-TOTAL'),
